@@ -5,6 +5,7 @@ package main
 import (
 	"fmt"
 	"go/types"
+	"os"
 	"strings"
 )
 
@@ -283,6 +284,11 @@ func (x *Exec) typeInv(v Term, t types.Type, st *State, depth int) Term {
 		if depth <= 0 {
 			return TTrue
 		}
+		if os.Getenv("VC_EAGER_TYPEINV") == "" {
+			if p := x.structInvPred(t, u, depth); p != "" {
+				return App(SBool, p, v, st.alloc)
+			}
+		}
 		var cs []Term
 		for i := 0; i < u.NumFields(); i++ {
 			ft := u.Field(i).Type()
@@ -380,4 +386,59 @@ func (x *Exec) constArray(arrSort Sort, v Term) Term {
 	idx := arrayIdxSort(arrSort)
 	x.sc.Decl("constarr:"+name, fmt.Sprintf("(declare-const %s %s)\n(assert (forall ((i %s)) (! (= (select %s i) %s) :pattern ((select %s i)))))", name, arrSort, idx, name, v.S, name))
 	return Term{name, arrSort}
+}
+
+// structInvPred: the representation invariant of a struct with many fields is
+// stated lazily: an uninterpreted predicate tinv_T_d(v, alloc) with one
+// triggered axiom per field (pattern: the predicate and the field selector
+// applied to the same value), so that only the fields a proof talks about are
+// unfolded. Returns "" for small structs (stated inline).
+func (x *Exec) structInvPred(t types.Type, u *types.Struct, depth int) string {
+	n := 0
+	for i := 0; i < u.NumFields(); i++ {
+		ft := u.Field(i).Type()
+		switch ft.Underlying().(type) {
+		case *types.Slice, *types.Pointer, *types.Struct, *types.Map:
+			n++
+		case *types.Basic:
+			if isString(ft) {
+				n++
+			}
+		}
+	}
+	if n < 3 {
+		return ""
+	}
+	srt := x.sortOf(t)
+	name := fmt.Sprintf("tinv_%s_%d", mangleIdent(string(srt)), depth)
+	key := "tinv:" + name
+	if x.tinvDone == nil {
+		x.tinvDone = map[string]bool{}
+	}
+	if x.tinvDone[key] {
+		return name
+	}
+	x.tinvDone[key] = true
+	allocSort := Sort("(Array Int Bool)")
+	x.sc.Decl(key, fmt.Sprintf("(declare-fun %s (%s %s) Bool)", name, srt, allocSort))
+	pst := &State{alloc: Term{"a", allocSort}}
+	v := Term{"v", srt}
+	for i := 0; i < u.NumFields(); i++ {
+		ft := u.Field(i).Type()
+		var body Term
+		switch ft.Underlying().(type) {
+		case *types.Slice, *types.Pointer, *types.Struct, *types.Map:
+			body = x.typeInv(x.fieldGet(v, t, i), ft, pst, depth-1)
+		case *types.Basic:
+			if isString(ft) {
+				body = x.typeInv(x.fieldGet(v, t, i), ft, pst, depth-1)
+			}
+		}
+		if body.S == "" || body.S == "true" {
+			continue
+		}
+		sel := x.fieldGet(v, t, i)
+		x.sc.Decl(fmt.Sprintf("%s:f%d", key, i), fmt.Sprintf("(assert (forall ((v %s) (a %s)) (! (=> (%s v a) %s) :pattern ((%s v a) %s))))", srt, allocSort, name, body.S, name, sel.S))
+	}
+	return name
 }
